@@ -21,6 +21,9 @@ is assumed about rust-bitcoin and about the `Wallet` implementation:
   `lock_time.to_consensus_u32()`             the locktime itself
   `parse_received_htlc_script(..)` / `parse_offered_htlc_script(..)`   the model's `HtlcScript` (input of the model)
 
+Every external is passed **by name** (`(ext_is_zero_fee_htlc := …)`): calling another library function in the same
+place (e.g. `is_anchors()` for `is_zero_fee_htlc()`) renames the parameter and the statement no longer elaborates.
+
 Everything else — the order of the checks, which check is filtered by the policy filter and which is a
 `transaction_format` error, `current_height + MAX_CHAIN_LAG` in `u32` (overflow!), the `expect`, `tx.input[0]`,
 the compared delay field (`counterparty_selected_contest_delay`), the sequence tables, the i64 range check of
@@ -117,7 +120,7 @@ theorem foldl_step (d : Bool) (f : Unit → GTxOut SweepOut → Rs.M Unit)
 
 /-- **`validate_sweep` = `Sweep.validateSweep`**, for every transaction, output facts and filter -/
 theorem C09_fn_validate_sweep (v : SimpleValidator) (d : Bool) (tx : SweepTx) (ins : List GTxIn) (i a : Nat) :
-    rel (SimpleValidator.validate_sweep canSpendE allowE (filt d) v () (toTx tx ins) i a ()) = validateSweep d tx := by
+    rel (SimpleValidator.validate_sweep (ext_can_spend := canSpendE) (ext_allowlist_contains := allowE) (policy_filter_err := filt d) v () (toTx tx ins) i a ()) = validateSweep d tx := by
   unfold SimpleValidator.validate_sweep validateSweep
   by_cases hv : tx.version = 2
   · have hv' : ((toTx tx ins).version != (2 : Int)) = false := by simp [toTx, hv]
@@ -143,12 +146,12 @@ theorem C09_fn_validate_sweep (v : SimpleValidator) (d : Bool) (tx : SweepTx) (i
 
 /-- `validate_sweep` either fails with the error the model's class stands for, or returns `Ok(())` -/
 theorem validate_sweep_cases (v : SimpleValidator) (d : Bool) (tx : SweepTx) (ins : List GTxIn) (i a : Nat) :
-    (∃ e, SimpleValidator.validate_sweep canSpendE allowE (filt d) v () (toTx tx ins) i a () = .error e ∧
+    (∃ e, SimpleValidator.validate_sweep (ext_can_spend := canSpendE) (ext_allowlist_contains := allowE) (policy_filter_err := filt d) v () (toTx tx ins) i a () = .error e ∧
           validateSweep d tx = rel (.error e)) ∨
-    (SimpleValidator.validate_sweep canSpendE allowE (filt d) v () (toTx tx ins) i a () = .ok () ∧
+    (SimpleValidator.validate_sweep (ext_can_spend := canSpendE) (ext_allowlist_contains := allowE) (policy_filter_err := filt d) v () (toTx tx ins) i a () = .ok () ∧
           validateSweep d tx = .ok) := by
   have h := C09_fn_validate_sweep v d tx ins i a
-  cases hr : SimpleValidator.validate_sweep canSpendE allowE (filt d) v () (toTx tx ins) i a () with
+  cases hr : SimpleValidator.validate_sweep (ext_can_spend := canSpendE) (ext_allowlist_contains := allowE) (policy_filter_err := filt d) v () (toTx tx ins) i a () with
   | error e => left; exact ⟨e, rfl, by rw [← h, hr]⟩
   | ok u => right; cases u; exact ⟨rfl, by rw [← h, hr]; rfl⟩
 
@@ -192,7 +195,7 @@ theorem lag_cases (h : Nat) :
     range — so `tx.input[0]` exists — and the per-commitment point available) -/
 theorem C09_fn_validate_delayed_sweep (v : SimpleValidator) (d : Bool) (tx : SweepTx) (ins : List GTxIn) (hins : InsOf tx ins)
     (input amount h delay : Nat) (hi : input < tx.nInputs) :
-    rel (SimpleValidator.validate_delayed_sweep canSpendE allowE (filt d) heightE satisfiedE v ()
+    rel (SimpleValidator.validate_delayed_sweep (ext_can_spend := canSpendE) (ext_allowlist_contains := allowE) (policy_filter_err := filt d) (ext_height_from_consensus := heightE) (ext_is_satisfied_by_height := satisfiedE) v ()
           { counterparty_selected_contest_delay := delay } { current_height := h } (toTx tx ins) input amount ())
       = signDelayedSweep d tx input true h delay := by
   obtain ⟨hl, hs⟩ := hins
@@ -224,7 +227,7 @@ theorem C09_fn_validate_delayed_sweep (v : SimpleValidator) (d : Bool) (tx : Swe
 /-- outside the caller's guarantee: a transaction without inputs that passes the earlier checks panics at `tx.input[0]` -/
 theorem C09_fn_validate_delayed_sweep_no_input (v : SimpleValidator) (d : Bool) (tx : SweepTx) (input amount h delay hh : Nat)
     (hv : validateSweep d tx = .ok) (hlag : lagHeight h = some hh) (hsat : locktimeSatisfied tx.locktime hh = true) :
-    SimpleValidator.validate_delayed_sweep canSpendE allowE (filt d) heightE satisfiedE v ()
+    SimpleValidator.validate_delayed_sweep (ext_can_spend := canSpendE) (ext_allowlist_contains := allowE) (policy_filter_err := filt d) (ext_height_from_consensus := heightE) (ext_is_satisfied_by_height := satisfiedE) v ()
           { counterparty_selected_contest_delay := delay } { current_height := h } (toTx tx []) input amount ()
       = .error .panic := by
   unfold SimpleValidator.validate_delayed_sweep
@@ -242,7 +245,7 @@ theorem C09_fn_validate_delayed_sweep_no_input (v : SimpleValidator) (d : Bool) 
 /-- **`validate_justice_sweep` = `Sweep.signJusticeSweep` behind its front check** -/
 theorem C09_fn_validate_justice_sweep (v : SimpleValidator) (d : Bool) (tx : SweepTx) (ins : List GTxIn) (hins : InsOf tx ins)
     (input amount h delay : Nat) (hi : input < tx.nInputs) :
-    rel (SimpleValidator.validate_justice_sweep canSpendE allowE (filt d) heightE satisfiedE v ()
+    rel (SimpleValidator.validate_justice_sweep (ext_can_spend := canSpendE) (ext_allowlist_contains := allowE) (policy_filter_err := filt d) (ext_height_from_consensus := heightE) (ext_is_satisfied_by_height := satisfiedE) v ()
           { counterparty_selected_contest_delay := delay } { current_height := h } (toTx tx ins) input amount ())
       = signJusticeSweep d tx input h := by
   obtain ⟨hl, hs⟩ := hins
@@ -280,9 +283,10 @@ theorem utruncI_u32 (c : Int) (h0 : 0 ≤ c) (h1 : c ≤ (Rs.U32_MAX : Int)) : R
     how the redeemscript parses for the channel's `is_anchors()` form, `anchors` = `setup.is_anchors()` -/
 theorem C09_fn_validate_counterparty_htlc_sweep (v : SimpleValidator) (d : Bool) (tx : SweepTx) (ins : List GTxIn) (hins : InsOf tx ins)
     (input amount h delay : Nat) (script : HtlcScript) (anchors : Bool) (rs : SweepOut) (hi : input < tx.nInputs) :
-    rel (SimpleValidator.validate_counterparty_htlc_sweep canSpendE allowE (filt d) (fun _ => anchors)
-          (fun (_ : SweepOut) a => received? script a) (fun (lt : Nat) => lt) (fun (_ : SweepOut) a => offered? script a)
-          heightE satisfiedE v ()
+    rel (SimpleValidator.validate_counterparty_htlc_sweep (ext_can_spend := canSpendE) (ext_allowlist_contains := allowE) (policy_filter_err := filt d) (ext_is_anchors := fun _ => anchors)
+          (ext_received_htlc_cltv := fun (_ : SweepOut) a => received? script a) (ext_to_consensus_u32 := fun (lt : Nat) => lt)
+          (ext_is_offered_htlc_script := fun (_ : SweepOut) a => offered? script a)
+          (ext_height_from_consensus := heightE) (ext_is_satisfied_by_height := satisfiedE) v ()
           { counterparty_selected_contest_delay := delay } { current_height := h } (toTx tx ins) rs input amount ())
       = signCounterpartyHtlcSweep d tx input script anchors h := by
   obtain ⟨hl, hs⟩ := hins
@@ -345,7 +349,7 @@ def filtH (pol : HtlcPolicy) : String → Bool := fun tag =>
 /-- **`validate_htlc_tx` = `Sweep.validateHtlcTx`** (`ct.isZeroFee` = `setup.is_zero_fee_htlc()`, see below) -/
 theorem C09_fn_validate_htlc_tx (pol : HtlcPolicy) (ct : CommitmentType) (offered : Bool) (cltv feerate : Nat)
     (setup : ChannelSetup) (cs : ChainState) (ic : Bool) :
-    rel (SimpleValidator.validate_htlc_tx (filtH pol) (fun _ => ct.isZeroFee) (toV pol) setup cs ic
+    rel (SimpleValidator.validate_htlc_tx (policy_filter_err := filtH pol) (ext_is_zero_fee_htlc := fun _ => ct.isZeroFee) (toV pol) setup cs ic
           { offered := offered, cltv_expiry := cltv } feerate)
       = validateHtlcTx pol ct offered cltv feerate := by
   unfold SimpleValidator.validate_htlc_tx validateHtlcTx
